@@ -1,7 +1,9 @@
 #!/bin/sh
 # Offline setup: full .vo build of the Coq development (never -vos), nothing else to prepare.
 set -e
-cd "$(dirname "$0")/../coq"
+cd "$(dirname "$0")/.."
+python3 -c "import sys; sys.path.insert(0,'tools'); import vlib; vlib.gen_coqproject()"
+cd coq
 coq_makefile -f _CoqProject -o Makefile > /dev/null
 timeout 3000 make -j16
 echo "setup ok"
